@@ -254,9 +254,17 @@ func fnLcs(ctx *cmdContext, args map[string]any) (output respValue, err error) {
 		return
 	}
 
-	if vals[0] == nil || vals[1] == nil {
-		output.data = respBulkString("")
+	if hasLength && hasIdx {
+		output.data = respErrorString("ERR If you want both the length and indexes, please just use IDX.")
 		return
+	}
+
+	// a missing key is an empty string (LEN answers 0, IDX an empty match list)
+	empty := ""
+	for i := range vals {
+		if vals[i] == nil {
+			vals[i] = &empty
+		}
 	}
 
 	ls := newLongestSeq(*vals[0], *vals[1])
